@@ -569,6 +569,8 @@ func (e *eng) Exec(op []string) string {
 		return e.racejoin(a(1), a(2), a(3))
 	case "leavejoin":
 		return e.leavejoin(op[1], a(2))
+	case "dupleave":
+		return e.dupleave(a(1))
 	case "histsnap":
 		return e.histsnap(a(1), a(2))
 	case "p9":
@@ -841,6 +843,12 @@ func gen(t *common.Trace, e common.Engine, r *common.Rng, thorough bool) {
 	// the last operator leaves while a non-operator's slow password check is in progress (C10: autokick/autolock under every interleaving)
 	for _, kind := range []string{"autokick", "autolock", "autokick"} {
 		common.Do(t, e, fmt.Sprintf("leavejoin %s %d", kind, 150000))
+	}
+	// one departure reported by three goroutines at once (C14: told exactly once)
+	if thorough {
+		common.Do(t, e, "dupleave 20000")
+	} else {
+		common.Do(t, e, "dupleave 3000")
 	}
 	// a history snapshot handed out must be a copy (C13/C15)
 	for _, hn := range [][2]int{{10, 5}, {49, 3}, {50, 1}, {50, 60}, {75, 10}} {
